@@ -879,12 +879,97 @@ fn check_c05_sweep() {
     eprintln!("swept {} symbols", n);
 }
 
+// ------------------------------------------------------------------------------------------------ C13 (bounded stand-ins)
+// core table, intersection table and stabiliser presentation on subgroups of small groups with independently known order
+fn trace_from(t: &CosetTable, start: usize, w: &[isize]) -> Option<usize> { let mut r = start; for &g in w { r = t.get(r, g)?; } Some(r) }
+fn check_c13() {
+    use rust_dsymbols::fpgroups::stabilizer::stabilizer;
+    let w = |v: &[isize]| FreeWord::from(v.to_vec());
+    // (generators, relators, order)
+    let groups: Vec<(usize, Vec<FreeWord>, usize)> = vec![
+        (2, vec![w(&[1, 1]), w(&[2, 2]), w(&[1, 2, 1, 2, 1, 2])], 6),
+        (2, vec![w(&[1, 1]), w(&[2, 2]), w(&[1, 2, 1, 2])], 4),
+        (2, vec![w(&[1, 1, 1]), w(&[2, 2]), w(&[1, 2, 1, 2, 1, 2])], 12),                                          // A4
+        (3, vec![w(&[1, 1]), w(&[2, 2]), w(&[3, 3]), w(&[1, 2, 1, 2, 1, 2]), w(&[2, 3, 2, 3, 2, 3]), w(&[1, 3, 1, 3])], 24),   // S4
+        (2, vec![w(&[1, 1, 1, 1]), w(&[2, 2]), w(&[1, 2, 1, 2])], 8),                                              // D4
+        (1, vec![w(&[1, 1, 1, 1, 1, 1])], 6),
+    ];
+    for (n, rels, order) in &groups {
+        let (n, order) = (*n, *order);
+        let words: Vec<Vec<isize>> = all_words(n as isize, 2).into_iter().filter(|v| !v.is_empty()).collect();
+        let test_words: Vec<Vec<isize>> = all_words(n as isize, if n >= 3 { 4 } else { 5 });
+        let mut tables: Vec<(Vec<Vec<isize>>, CosetTable)> = vec![];
+        let mut seen: BTreeSet<String> = BTreeSet::new();
+        for a in 0..words.len().min(10) { for b in a..words.len().min(10) {
+            let sub = vec![w(&words[a]), w(&words[b])];
+            if let Ok(t) = quiet(|| coset_table(n, rels, &sub)) { let key = format!("{}", t); if seen.insert(key) { tables.push((vec![words[a].clone(), words[b].clone()], t)); } }
+        } }
+        if let Ok(t) = quiet(|| coset_table(n, rels, &vec![])) { tables.push((vec![], t)); }
+        let gens_txt = format!("gens={} rels={:?}", n, rels.iter().map(letters).collect::<Vec<_>>());
+        for (sub, t) in &tables {
+            let txt = format!("{} sub={:?}", gens_txt, sub);
+            // ---- core table: rows = order of the permutation group generated by the action; fixes-everything <=> fixes row 0 of the core
+            match quiet(|| core_table(t)) {
+                Err(e) => falsified("core_table", txt.clone(), format!("panic {}", e)),
+                Ok(core) => {
+                    let perms: Vec<Vec<usize>> = (1..=n as isize).map(|g| (0..t.len()).map(|r| t.get(r, g).unwrap_or(r)).collect()).collect();
+                    let id: Vec<usize> = (0..t.len()).collect();
+                    let mut elems: BTreeSet<Vec<usize>> = BTreeSet::new(); elems.insert(id.clone()); let mut st = vec![id.clone()];
+                    while let Some(x) = st.pop() { for p in &perms { let y = perm_mul(&x, p); if elems.insert(y.clone()) { st.push(y); } } }
+                    if core.len() != elems.len() { falsified("core_table", txt.clone(), format!("{} rows, the action generates a permutation group of order {}", core.len(), elems.len())); }
+                    for tw in &test_words {
+                        let all_fixed = (0..t.len()).all(|r| trace_from(t, r, tw) == Some(r));
+                        let core_fixed = trace_from(&core, 0, tw) == Some(0);
+                        if all_fixed != core_fixed { falsified("core_table", txt.clone(), format!("word {:?}: fixes all rows of the input = {}, fixes row 0 of the core = {}", tw, all_fixed, core_fixed)); break; }
+                    }
+                }
+            }
+            // ---- stabiliser of row 0: generators fix the base row, generate a subgroup of the right index, presentation has the right order
+            match quiet(|| stabilizer(0, rels.clone(), t)) {
+                Err(e) => falsified("stabilizer", txt.clone(), format!("panic {}", e)),
+                Ok((sgens, srels)) => {
+                    for sg in &sgens { if trace_from(t, 0, &letters(sg)) != Some(0) { falsified("stabilizer", txt.clone(), format!("generator {:?} does not fix the base row", letters(sg))); } }
+                    match quiet(|| coset_table(n, rels, &sgens)) {
+                        Ok(t2) => if t2.len() != t.len() { falsified("stabilizer", txt.clone(), format!("the generators generate a subgroup of index {}, the stabiliser has index {}", t2.len(), t.len())); },
+                        Err(e) => falsified("stabilizer", txt.clone(), format!("coset enumeration over the generators panics: {}", e)),
+                    }
+                    if order % t.len() == 0 && sgens.len() <= 12 {
+                        let want = order / t.len();
+                        match quiet(|| coset_table(sgens.len(), &srels, &vec![])) {
+                            Ok(t3) => if t3.len() != want { falsified("stabilizer", txt.clone(), format!("the presentation ({} generators, {} relators) has order {}, the stabiliser has order {}", sgens.len(), srels.len(), t3.len(), want)); },
+                            Err(e) => falsified("stabilizer", txt.clone(), format!("the presentation does not enumerate: {}", e)),
+                        }
+                    }
+                }
+            }
+        }
+        // ---- intersection table: orbit of (0, 0) in the product action; fixes row 0 <=> fixes row 0 of both
+        for x in 0..tables.len().min(8) { for y in x..tables.len().min(8) {
+            let (ta, tb) = (&tables[x].1, &tables[y].1);
+            let txt = format!("{} sub_a={:?} sub_b={:?}", gens_txt, tables[x].0, tables[y].0);
+            match quiet(|| intersection_table(ta, tb)) {
+                Err(e) => falsified("intersection_table", txt, format!("panic {}", e)),
+                Ok(tx) => {
+                    let mut orbit: BTreeSet<(usize, usize)> = BTreeSet::new(); orbit.insert((0, 0)); let mut st = vec![(0usize, 0usize)];
+                    while let Some((a, b)) = st.pop() { for g in ta.all_gens() { if let (Some(a2), Some(b2)) = (ta.get(a, g), tb.get(b, g)) { if orbit.insert((a2, b2)) { st.push((a2, b2)); } } } }
+                    if tx.len() != orbit.len() { falsified("intersection_table", txt.clone(), format!("{} rows, the orbit of the pair of base rows has {} elements", tx.len(), orbit.len())); }
+                    for tw in &test_words {
+                        let both = trace_from(ta, 0, tw) == Some(0) && trace_from(tb, 0, tw) == Some(0);
+                        let inter = trace_from(&tx, 0, tw) == Some(0);
+                        if both != inter { falsified("intersection_table", txt.clone(), format!("word {:?}: fixes row 0 of both inputs = {}, of the intersection table = {}", tw, both, inter)); break; }
+                    }
+                }
+            }
+        } }
+    }
+}
+
 fn main() {
     let prop = std::env::args().nth(1).unwrap_or_default();
     std::panic::set_hook(Box::new(|_| {}));
     match prop.as_str() {
         "C01" => check_c01(), "C02" => { check_c02(); check_c02_graph(); check_c02_plain_r(); }, "C04" => { check_c04(); check_c04_minimal(); }, "C05" => { check_c05(); check_c05_covers(); check_c05_count(); if thorough() { check_c05_sweep(); } },
-        "C10" => check_c10(), "C11" => { check_c11(); check_c11_random(); check_c11_exhaustive(); }, "C18" => { check_c18(); check_c18_exact(); check_c18_modular(); }, "C20" => { check_c20(); check_c20_unions(); },
+        "C10" => check_c10(), "C11" => { check_c11(); check_c11_random(); check_c11_exhaustive(); }, "C18" => { check_c18(); check_c18_exact(); check_c18_modular(); }, "C20" => { check_c20(); check_c20_unions(); }, "C13" => check_c13(),
         _ => { eprintln!("unknown property"); std::process::exit(2); }
     }
     unsafe { println!("falsifier finished: {} discrepancies", COUNT); }
